@@ -1,3 +1,5 @@
+import QR.Proofs.SourceTieD4b
+import QR.Proofs.SourceTieD4c
 import QR.Model.Svg
 import QR.Spec.Svg
 import QR.Proofs.Svg
@@ -166,6 +168,156 @@ theorem C13_source_drawShape_src (isPath : Bool) (d : SvgDrawer) (b X Y : Nat) :
   QR.SourceTieB.drawShape_src isPath d b X Y
 
 end SourceTieT2
+
+/-! ### Tie to the source, package D4 (`tools/t2_fragments/frag_d4.py`): `BaseImageWithDrawer.__init__` / `get_drawer` /
+    `init_new_image` / `drawrect_context`, the SVG drawers' `drawrect`, `SvgPathImage.__init__` / `process`, run inside the
+    translated tail of `QRCode.make_image`; translated statement by statement from /repo's current Python AST.
+    Restated verbatim from `QR/Proofs/SourceTieD4b.lean`, `SourceTieD4c.lean`. -/
+section SourceTieD4
+open QR.Model QR.Gen.Code QR.SourceTieB QR.SourceTieD4
+
+/-- `BaseImageWithDrawer.drawrect_context(row, col, qr)`: one call `drawer.drawrect(box, is_active)`; the drawer is the eye
+    drawer iff `Model.isEye`, `box = Model.pixelBox row col`, `is_active` the neighbour context iff the drawer needs it -/
+theorem C13_source_drawrectContext_src {D A S : Type} (border boxSize width : Nat) (ed md : D) (nn : D → Bool)
+    (awn : Nat → Nat → A) (ofBool : Bool → A) (M : Mods) (drawrect : D → rd_Box → A → S → S) (row col : Nat) (im : S) :
+    rd_drawrect_context border boxSize width ed md nn awn ofBool M drawrect row col im =
+      let d := if isEye width row col then ed else md
+      drawrect d (pixelBox border boxSize row col) (if nn d then awn row col else ofBool ((M.getD row []).getD col false)) im :=
+  QR.SourceTieD4.drawrectContext_src border boxSize width ed md nn awn ofBool M drawrect row col im
+
+/-- class bodies of `moduledrawers/svg.py`: no SVG drawer sets `needs_neighbors`; path drawers inherit
+    `SvgPathQRModuleDrawer.drawrect`, element drawers `SvgQRModuleDrawer.drawrect` -/
+theorem C13_source_svgDrawer_classes_src (isPath : Bool) (d : SvgDrawer) :
+    needsNeighbors isPath d = false ∧
+    rd_svg_drawer_drawrect_class.lookup (drawerClass isPath d.kind)
+      = some (if isPath then "SvgPathQRModuleDrawer" else "SvgQRModuleDrawer") :=
+  QR.SourceTieD4.svgDrawer_classes_src isPath d
+
+/-- `default_drawer_class` of each SVG factory and `get_default_module_drawer` / `get_default_eye_drawer` -/
+theorem C13_source_svgDefaultDrawer_src (f : SvgFactory) :
+    rd_svg_default_drawer.lookup (factoryName f) = some (drawerClass f.isPath .square) ∧
+    rd_get_default_module_drawer = "self.default_drawer_class()" ∧ rd_get_default_eye_drawer = "self.default_drawer_class()" :=
+  QR.SourceTieD4.svgDefaultDrawer_src f
+
+/-- `SvgQRModuleDrawer.drawrect`: `if not is_active: return`, else `self.img._img.append(self.el(box))` -/
+theorem C13_source_svgDrawrect_src (el : rd_Box → rd_Element) (box : rd_Box) (a : Bool) (img : rd_SvgImg) :
+    rd_svg_drawrect el id box a img = if a then { img with img := img.img ++ [el box] } else img :=
+  QR.SourceTieD4.svgDrawrect_src el box a img
+
+/-- `SvgPathQRModuleDrawer.drawrect`: `if not is_active: return`, else `self.img._subpaths.append(self.subpath(box))` -/
+theorem C13_source_svgPathDrawrect_src (sub : rd_Box → String) (box : rd_Box) (a : Bool) (img : rd_SvgImg) :
+    rd_svg_path_drawrect sub id box a img = if a then { img with subpaths := img.subpaths ++ [sub box] } else img :=
+  QR.SourceTieD4.svgPathDrawrect_src sub box a img
+
+/-- `SvgPathImage.process()`: the final `<path d="".join(self._subpaths) id="qr-path" **QR_PATH_STYLE>` element, stored in
+    `self.path`, appended to the document; `_subpaths` emptied -/
+theorem C13_source_svgPathProcess_src (self : rd_SvgImg) :
+    rd_svg_path_process self =
+      let p : rd_Element :=
+        { tag := "path"
+          attrs := [("d", "".intercalate self.subpaths), ("id", "qr-path"), ("fill", "#000000"), ("fill-opacity", "1"),
+                    ("fill-rule", "nonzero"), ("stroke", "none")] }
+      { img := self.img ++ [p], subpaths := [], path := some p } :=
+  QR.SourceTieD4.svgPathProcess_src self
+
+/-- `SvgPathImage.__init__`: `self._subpaths = []` before the base class constructor -/
+theorem C13_source_svgPathInit_src (superInit : rd_SvgImg → rd_SvgImg) (self : rd_SvgImg) :
+    rd_svg_path_init superInit self = superInit { self with subpaths := [] } :=
+  QR.SourceTieD4.svgPathInit_src superInit self
+
+/-- one cell of the loop: `drawrect_context` + the drawer's `drawrect` append (a rendering of) the Model's
+    `drawShape` for that cell, with the eye drawer on the eyes, iff the module is dark -/
+theorem C13_source_svgCell_src (isPath : Bool) (render : Nat × SvgShape → rd_Element) (renderP : Nat × SvgShape → String)
+    (md ed : SvgDrawer) (M : Mods) (width border boxSize : Nat) (awn : Nat → Nat → Bool) (r c : Nat) (img : rd_SvgImg) :
+    rd_drawrect_context border boxSize width ed md (needsNeighbors isPath) awn id M (svgDrawrect isPath render renderP boxSize) r c img
+      = if (M.getD r []).getD c false then
+          addAll isPath render renderP img
+            [(let d := if isEye width r c then ed else md
+              (2 * d.den, drawShape isPath d boxSize ((c + border) * boxSize) ((r + border) * boxSize)))]
+        else img :=
+  QR.SourceTieD4.svgCell_src isPath render renderP md ed M width border boxSize awn r c img
+
+/-- `make_image` with an SVG factory (loop, `drawrect_context`, drawers' `drawrect`, `process`, class flags - all translated)
+    = `Model.svgDoc`: element factories append the Model's shapes in the Model's order, path factories append one `<path>` whose
+    `d` is the concatenation of the Model's subpaths in row-major order; inactive modules append nothing -/
+theorem C13_source_svgDraw_src (f : SvgFactory) (render : Nat × SvgShape → rd_Element) (renderP : Nat × SvgShape → String)
+    (md ed : SvgDrawer) (M : Mods) (width border boxSize : Nat) (awn : Nat → Nat → Bool)
+    (drawrect : Nat → Nat → rd_SvgImg → rd_SvgImg) (img : rd_SvgImg) :
+    makeImageDraw (factoryName f) width M
+        (rd_drawrect_context border boxSize width ed md (needsNeighbors f.isPath) awn id M (svgDrawrect f.isPath render renderP boxSize))
+        drawrect rd_svg_path_process img
+      = let shapes := (svgDoc f md ed M width border boxSize).shapes
+        if f.isPath then
+          let p : rd_Element :=
+            { tag := "path"
+              attrs := [("d", "".intercalate (img.subpaths ++ shapes.map renderP)), ("id", "qr-path"), ("fill", "#000000"),
+                        ("fill-opacity", "1"), ("fill-rule", "nonzero"), ("stroke", "none")] }
+          { img := img.img ++ [p], subpaths := [], path := some p }
+        else { img with img := img.img ++ shapes.map render } :=
+  QR.SourceTieD4.svgDraw_src f render renderP md ed M width border boxSize awn drawrect img
+
+/-- a freshly constructed path image (`SvgPathImage.__init__` + `make_image`): the `d` attribute of `self.path` is exactly the
+    concatenation of the subpaths of `Model.svgDoc`'s shapes -/
+theorem C13_source_svgPathD_src (f : SvgFactory) (hf : f.isPath = true) (render : Nat × SvgShape → rd_Element)
+    (renderP : Nat × SvgShape → String) (md ed : SvgDrawer) (M : Mods) (width border boxSize : Nat) (awn : Nat → Nat → Bool)
+    (drawrect : Nat → Nat → rd_SvgImg → rd_SvgImg) (superInit : rd_SvgImg → rd_SvgImg) (self : rd_SvgImg)
+    (hsuper : (superInit { self with subpaths := [] }).subpaths = []) :
+    ((makeImageDraw (factoryName f) width M
+        (rd_drawrect_context border boxSize width ed md (needsNeighbors f.isPath) awn id M (svgDrawrect f.isPath render renderP boxSize))
+        drawrect rd_svg_path_process (rd_svg_path_init superInit self)).path.map fun p => p.attrs.lookup "d")
+      = some (some ("".intercalate ((svgDoc f md ed M width border boxSize).shapes.map renderP))) :=
+  QR.SourceTieD4.svgPathD_src f hf render renderP md ed M width border boxSize awn drawrect superInit self hsuper
+
+/-- `BaseImageWithDrawer.get_drawer`: None / drawer object / alias looked up in `self.drawer_aliases` (closed form) -/
+theorem C13_source_getDrawer_src {D : Type} (aliases : String → Option D) (a : rd_DrawerArg D) :
+    rd_get_drawer aliases a =
+      match a with
+      | .none => .ok none
+      | .obj d => .ok (some d)
+      | .str s => (aliases s).elim (.error "KeyError") (fun d => .ok (some d)) :=
+  QR.SourceTieD4.getDrawer_src aliases a
+
+/-- `BaseImageWithDrawer.__init__`: module drawer = resolved `module_drawer` or the default module drawer, eye drawer = resolved
+    `eye_drawer` or the default eye drawer, both set before `super().__init__` (closed form) -/
+theorem C13_source_withDrawerInit_src {D A : Type} (getDrawer : A → Option D) (dm de : D)
+    (superInit : rd_Drawers D → rd_Drawers D) (m e : A) (self : rd_Drawers D) :
+    rd_with_drawer_init getDrawer dm de superInit m e self =
+      superInit { module_drawer := (getDrawer m).getD dm, eye_drawer := (getDrawer e).getD de } :=
+  QR.SourceTieD4.withDrawerInit_src getDrawer dm de superInit m e self
+
+/-- `BaseImageWithDrawer.init_new_image`: the two `initialize(img=self)` calls, module drawer first -/
+theorem C13_source_initNewImage_literals :
+    rd_init_new_image_calls = ["self.module_drawer.initialize", "self.eye_drawer.initialize"] :=
+  QR.SourceTieD4.initNewImage_literals
+
+/-- which class's drawrect / drawrect_context / process / init_new_image / __init__ each factory runs -/
+theorem C13_source_classMethods_literals :
+    rd_class_methods.lookup "PilImage" = some ["PilImage", "BaseImage", "BaseImage", "BaseImage", "BaseImage"] ∧
+    rd_class_methods.lookup "SvgImage"
+      = some ["BaseImage", "BaseImageWithDrawer", "BaseImage", "BaseImageWithDrawer", "SvgFragmentImage"] ∧
+    rd_class_methods.lookup "SvgFragmentImage" = rd_class_methods.lookup "SvgImage" ∧
+    rd_class_methods.lookup "SvgFillImage" = rd_class_methods.lookup "SvgImage" ∧
+    rd_class_methods.lookup "SvgPathImage"
+      = some ["BaseImage", "BaseImageWithDrawer", "SvgPathImage", "BaseImageWithDrawer", "SvgPathImage"] ∧
+    rd_class_methods.lookup "SvgPathFillImage" = rd_class_methods.lookup "SvgPathImage" :=
+  QR.SourceTieD4.classMethods_literals
+
+/-- `SvgImage._svg` (root, `xmlns`, background rectangle appended before any module, return), `SvgPathImage._svg`,
+    `SvgFragmentImage.to_string` / `new_image`: statement order and callees -/
+theorem C13_source_svgImage_literals :
+    rd_svg_image_svg_steps = ["svg = super()._svg(tag=tag, **kwargs)", "svg.set('xmlns', self._SVG_namespace)",
+      "if self.background", "svg.append", "return svg"] ∧
+    rd_svg_image_svg_tag_default = "svg" ∧
+    rd_svg_path_svg_return = "super()._svg(viewBox=viewBox, **kwargs)" ∧
+    rd_svg_to_string_returns = "ET.tostring(self._img, **kwargs)" ∧
+    rd_svg_new_image_returns = "self._svg(**kwargs)" :=
+  QR.SourceTieD4.svgImage_literals
+
+/-- `ActiveWithNeighbors.__bool__` returns the centre flag `self.me` (the truth value a drawer's `if not is_active` sees) -/
+theorem C13_source_activeWithNeighbors_bool_literal : rd_active_with_neighbors_bool = "self.me" :=
+  QR.SourceTieD4.activeWithNeighbors_bool_literal
+
+end SourceTieD4
 
 /-- the Python functions this property's model mirrors have, in /repo's current working tree, exactly the normalised
     ASTs the model was written and validated against (fingerprints regenerated by T1 on every run) -/
